@@ -251,6 +251,9 @@ func checkBytes(c *hl.Ctx, w *wireCase, b []byte, first int) {
 	}
 	if f == nil {
 		c.DistinctH("distinct_nontrivial", hashKey("bytes", b))
+		if w.Suffix == ref.SuffixNone && w.Tree.Nodes() <= prefixNodes {
+			checkPrefixes(c, w, b)
+		}
 		return
 	}
 	feat, f := amf0lib.Attribute([]*ref.Tree{w.Tree}, f, func(s []*ref.Tree) *failure {
@@ -271,6 +274,34 @@ func checkBytes(c *hl.Ctx, w *wireCase, b []byte, first int) {
 	}
 	cs := bytesCase{Part: "bytes", wireCase: wireCase{Tree: w.Tree.Clone(), Suffix: w.Suffix, Byte: w.Byte, Next: w.Next}}
 	c.Violation(key, f.What, cs)
+}
+
+// prefixNodes: truncation prefixes are enumerated for trees up to this many nodes (3 quick, 4 thorough).
+var prefixNodes = 3
+
+// checkPrefixes: a truncated encoding that the library nevertheless decodes successfully must not report a Size()
+// larger than the bytes it was given (the decoder cannot have consumed more than that).
+func checkPrefixes(c *hl.Ctx, w *wireCase, b []byte) {
+	for k := 0; k < len(b); k++ {
+		if len(b) > 64 && k > 16 && k < len(b)-16 && k%257 != 0 {
+			continue
+		}
+		c.Eval()
+		a, err, pm := amf0lib.Decode(b[:k])
+		if pm != "" {
+			c.Violation("bytes/panic-decode/truncated", fmt.Sprintf("decoding the %d-byte prefix of %s (%v) panicked: %s", k, hl.Hex(b), w.Tree, pm), bytesCase{Part: "bytes", wireCase: wireCase{Tree: w.Tree.Clone()}})
+			return
+		}
+		if err != nil {
+			continue
+		}
+		sz, pm := amf0lib.Size(a)
+		if pm != "" || sz > k {
+			c.Violation("bytes/size-consumed/truncated-accepted", fmt.Sprintf("the %d-byte prefix %s of the encoding of %v decodes successfully and Size() reports %d bytes, more than the decoder was given (%s)", k, hl.Hex(b[:k]), w.Tree, sz, pm), bytesCase{Part: "bytes", wireCase: wireCase{Tree: w.Tree.Clone()}})
+			return
+		}
+		c.Add("truncated_prefixes_accepted_with_consistent_size", 1)
+	}
 }
 
 // checkBooleanBytes: 01 xx for every xx decodes with Size()==2, in front of another value.
@@ -306,6 +337,9 @@ func leafNames(ls []*ref.Tree) []string {
 }
 
 func run(c *hl.Ctx) {
+	if c.Thorough() {
+		prefixNodes = 4
+	}
 	c.Rule("E3 bounded-exhaustive. Family api: ALL value trees with <= N nodes (every leaf/container counts one node) over the leaf and key alphabets, " +
 		"object-like containers with pairwise distinct keys in every order, built with NewX()/Set, marshalled, decoded by Discovery+UnmarshalBinary, re-marshalled; " +
 		"observed by the independent AMF0 decoder. Family bytes: reference encodings of ALL wire-level trees with <= M nodes (keys with repetition, empty key, " +
